@@ -65,6 +65,19 @@ def run_small(key):
         res = check_matrix(pa, M_)
         if res not in ('eq', 'ne', None):
             return viol(res + f' (dtype {np.dtype(dt).name}, scale {scale})', M_.tolist())
+    # the returned mapping belongs to the caller: overwriting it must not change what later calls return
+    Sf = S.astype(np.float64)
+    for alg in ('optimal', 'greedy'):
+        first = np.array(pa._mapping_from_score_matrix(Sf, algorithm=alg))
+        handed = pa._mapping_from_score_matrix(Sf, algorithm=alg)
+        try:
+            handed[...] = 0
+        except (ValueError, TypeError):
+            pass                      # a read-only result cannot be corrupted
+        again = np.asarray(pa._mapping_from_score_matrix(Sf, algorithm=alg))
+        if not np.array_equal(again, first):
+            return viol(f"'{alg}': after the caller overwrote a returned mapping, the same call returns "
+                        f'{again.tolist()} instead of {first.tolist()}', S.tolist())
     return ok(outcome=res, flags=['greedy_lt_optimal'] if res == 'ne' else [], states=1, transitions=2)
 
 
